@@ -11,6 +11,8 @@ extern "C" {
     pub fn verif_store(addr: u32, value: u8);
     pub fn verif_in(idx: u32) -> u32;
     pub fn verif_out(idx: u32, value: u32);
+    pub fn verif_in64(idx: u32) -> u64;
+    pub fn verif_out64(idx: u32, value: u64);
 }
 
 fn vin(i: u32) -> u32 {
@@ -147,12 +149,152 @@ pub extern "C" fn harness_regfile() -> i32 {
     0
 }
 
+// ---------------------------------------------------------------------------------------------
+// Timer (C13): one tick_timers call from an arbitrary TimerContext state.
+// inputs: 50 enabled, 51 preserve_phase, 52/53 mti_period lo/hi, 54/55 sti_period, 56/57 next_mti,
+//         58/59 next_sti, 60/61 cycle, 62 initial ISR byte
+// outputs: 0 fired_mti, 1 fired_sti, 2/3 next_mti lo/hi, 4/5 next_sti lo/hi, 6 ISR after, 7 irq_pending
+use sc62015_core::memory::MemoryImage;
+use sc62015_core::timer::TimerContext;
+
+fn vin64(i: u32) -> u64 {
+    unsafe { verif_in64(i) }
+}
+fn vout64(i: u32, v: u64) {
+    unsafe { verif_out64(i, v) }
+}
+
+#[no_mangle]
+pub extern "C" fn harness_timer() -> i32 {
+    let mut t = TimerContext::new(vin(50) != 0, 0, 0);
+    t.set_preserve_phase(vin(51) != 0);
+    t.mti_period = vin64(52);
+    t.sti_period = vin64(54);
+    t.next_mti = vin64(56);
+    t.next_sti = vin64(58);
+    let mut mem = MemoryImage::new();
+    mem.write_internal_byte(0xFC, (vin(62) & 0xFF) as u8);
+    let (m, s) = t.tick_timers(&mut mem, vin64(60), None);
+    vout(0, m as u32);
+    vout(1, s as u32);
+    vout64(2, t.next_mti);
+    vout64(4, t.next_sti);
+    vout(6, mem.read_internal_byte(0xFC).unwrap_or(0) as u32);
+    vout(7, t.irq_pending as u32);
+    0
+}
+
+/// Timer reset: inputs as above + 60/61 = current cycle; outputs 2..5 = next targets.
+#[no_mangle]
+pub extern "C" fn harness_timer_reset() -> i32 {
+    let mut t = TimerContext::new(vin(50) != 0, 0, 0);
+    t.mti_period = vin64(52);
+    t.sti_period = vin64(54);
+    t.next_mti = vin64(56);
+    t.next_sti = vin64(58);
+    t.reset(vin64(60));
+    vout64(2, t.next_mti);
+    vout64(4, t.next_sti);
+    0
+}
+
+// ---------------------------------------------------------------------------------------------
+// LCD (C15).  The controller state is private, so an arbitrary state is *driven* through the
+// protocol itself: for each chip ON/OFF, start line, every VRAM byte (inputs 1000.. / 2000..),
+// then page / column, then optionally a status read to clear busy.
+use sc62015_core::lcd::LcdController;
+
+const LCD_BASE: u32 = 0x2000;
+fn lcd_addr(cs: u32, di: u32, rw: u32) -> u32 {
+    LCD_BASE | (cs << 2) | (di << 1) | rw
+}
+
+fn lcd_prepare(lcd: &mut LcdController) {
+    for chip in 0..2u32 {
+        let cs = if chip == 0 { 2 } else { 1 }; // left = 0b10, right = 0b01
+        let base = 100 + chip * 10;
+        for page in 0..8u32 {
+            lcd.write(lcd_addr(cs, 0, 0), (0x80 | page) as u8); // set page
+            lcd.write(lcd_addr(cs, 0, 0), 0x40); // set Y = 0
+            for col in 0..64u32 {
+                lcd.write(lcd_addr(cs, 1, 0), (vin(1000 + chip * 1000 + page * 64 + col) & 0xFF) as u8);
+            }
+        }
+        lcd.write(lcd_addr(cs, 0, 0), (vin(base) & 1) as u8); // on/off
+        lcd.write(lcd_addr(cs, 0, 0), (0xC0 | (vin(base + 1) & 0x3F)) as u8); // start line
+        lcd.write(lcd_addr(cs, 0, 0), (0x80 | (vin(base + 2) & 7)) as u8); // page
+        lcd.write(lcd_addr(cs, 0, 0), (0x40 | (vin(base + 3) & 0x3F)) as u8); // column
+        if vin(base + 4) & 1 == 0 {
+            let _ = lcd.read(lcd_addr(cs, 0, 1)); // status read clears busy
+        }
+    }
+}
+
+fn lcd_dump(lcd: &mut LcdController) {
+    // observable state through the protocol: status (busy/on) then current column via data reads is
+    // destructive, so report what the public snapshot-free API offers: display bytes + status reads.
+    let vram = lcd.display_vram_bytes();
+    for (p, row) in vram.iter().enumerate() {
+        for (c, b) in row.iter().enumerate() {
+            vout(10_000 + (p as u32) * 240 + c as u32, *b as u32);
+        }
+    }
+    for chip in 0..2u32 {
+        let cs = if chip == 0 { 2 } else { 1 };
+        vout(20 + chip, lcd.read(lcd_addr(cs, 0, 1)).map(|v| v as u32).unwrap_or(0x100));
+    }
+}
+
+/// op: input 200 = 0 write / 1 read; 201 address; 202 value.  outputs: 0 = read result (0x100 = None)
+#[no_mangle]
+pub extern "C" fn harness_lcd_op() -> i32 {
+    let mut lcd = LcdController::new();
+    lcd_prepare(&mut lcd);
+    let addr = vin(201);
+    if vin(200) == 0 {
+        lcd.write(addr, (vin(202) & 0xFF) as u8);
+        vout(0, 0x200);
+    } else {
+        vout(0, lcd.read(addr).map(|v| v as u32).unwrap_or(0x100));
+    }
+    // follow-up probes that expose page/column/start-line state without private access:
+    // a data read on each chip returns vram[page][col-1] and advances the column.
+    for chip in 0..2u32 {
+        let cs = if chip == 0 { 2 } else { 1 };
+        vout(30 + chip, lcd.read(lcd_addr(cs, 1, 1)).map(|v| v as u32).unwrap_or(0x100));
+        vout(32 + chip, lcd.read(lcd_addr(cs, 1, 1)).map(|v| v as u32).unwrap_or(0x100));
+    }
+    lcd_dump(&mut lcd);
+    let st = lcd.stats();
+    vout(40, st.chip_on[0] as u32);
+    vout(41, st.chip_on[1] as u32);
+    0
+}
+
+/// display buffer over symbolic VRAM: outputs 50_000 + row*240 + col
+#[no_mangle]
+pub extern "C" fn harness_lcd_pixels() -> i32 {
+    let mut lcd = LcdController::new();
+    lcd_prepare(&mut lcd);
+    let buf = lcd.display_buffer();
+    for (r, row) in buf.iter().enumerate() {
+        for (c, p) in row.iter().enumerate() {
+            vout(50_000 + (r as u32) * 240 + c as u32, *p as u32);
+        }
+    }
+    0
+}
+
 /// Entry-point dispatch for the native replay binary.
 pub fn dispatch(name: &str) -> i32 {
     match name {
         "harness_execute" => harness_execute(),
         "harness_execute_hidden" => harness_execute_hidden(),
         "harness_regfile" => harness_regfile(),
+        "harness_timer" => harness_timer(),
+        "harness_timer_reset" => harness_timer_reset(),
+        "harness_lcd_op" => harness_lcd_op(),
+        "harness_lcd_pixels" => harness_lcd_pixels(),
         _ => -999,
     }
 }
